@@ -529,6 +529,9 @@ DEF_LITS = [("u8",            "7",           "7u8",                         True
             ("u16",           "0x1F",        "31u16",                       True),
             ("&'static [u8; 2]", 'b"ab"',    'b"ab"',                       False),   # byte string into a byte-array reference: no Into
             ("u32",           "1_000",       "1000u32",                     True),
+            ("Option<bool>",  "false",       "Some(false)",                 False),   # From<bool> for Option<bool>: not the type's default
+            ("Option<bool>",  "true",        "Some(true)",                  False),
+            ("Option<u8>",    "0",           "Some(0u8)",                   False),
             ("crate::m::Off", "-9",          "-9i64",                       True),    # type alias: not spelled as a primitive -> Into, sign must survive
             ("crate::m::Off", "9",           "9i64",                        True),
             ("crate::m::Flt", "-2.5",        "-2.5f64",                     False),
@@ -572,12 +575,13 @@ def _c08(tier, seed):
     nl = len(DEF_LITS)
     # structs: every literal kind in every spelling, at each position among defaulted neighbours
     for k in range(nl):
-        for sp in range(5 if tier != "quick" else 2):
+        # quick: the plain `Default = lit` spelling always, plus two rotating ones; thorough: all five
+        for sp in (range(5) if tier != "quick" else sorted({0, 1 + k % 4, 1 + (k + 2) % 4})):
             form += 1
             shape = "named" if form % 2 else "tuple"
             n = 1 + form % 3
             at = form % n
-            fields = [def_field(NAMES[i] if shape == "named" else None, k if i == at else -(1 + (form + i)), sp + (k % 5 if tier == "quick" else 0) if i == at else 0, i)
+            fields = [def_field(NAMES[i] if shape == "named" else None, k if i == at else -(1 + (form + i)), sp if i == at else 0, i)
                       for i in range(n)]
             new = form % 3 == 0
             out.append(Program(c.pid(), "struct", "S", [Variant(None, shape, fields)], def_traits(new, form), focus={"Default"},
@@ -988,6 +992,10 @@ DISCR_EXPRS = {
     "and_xor": [("0xF & 6", 6), None, ("6 ^ 15", 9), None],
     "sub": [("10 - 3", 7), None, ("20 - 8", 12)],
     "neg_paren": [("-(3)", -3), None, ("1 + 1", 2), None],
+    # non-integer-literal discriminants mixed with integer literals: byte literals, a constant
+    "bytelit": [("0", 0), ("b'\\t'", 9), ("27", 27), ("b' '", 32), ("127", 127)],
+    "constmix": [("1", 1), ("crate::m::HIGH", 200), None, ("100", 100)],
+    "constfirst": [("crate::m::HIGH", 200), None, ("3", 3), None],
 }
 
 
@@ -1016,7 +1024,7 @@ def layout_enum(pid, payloads, dname, repr_, md, note_extra="", neighbours=False
         for v, d in zip(variants, DISCR_EXPRS[dname][:n]):
             if d:
                 v.sem["discr_src"] = d[0]
-        if dname in ("shl", "or", "mul", "and_xor"):
+        if dname in ("shl", "or", "mul", "and_xor", "bytelit", "constmix", "constfirst"):
             P.tags["no_verus"] = "bit-vector discriminant expression: Verus needs by(bit_vector) hints inside the verbatim body (an edit of the verified text); decided by Kani"
     if any(PAYLOADS[p] not in (None, "T0") for p in payloads):
         P.tags["no_verus"] = "concrete payload types (layout grid): decided by Kani on the real layout"
@@ -1065,7 +1073,7 @@ def c04(tier, seed):
                 out.append(layout_enum(c.pid(), sh, dname, repr_, md))
     # (A2) discriminants written as binary / parenthesised expressions (need an integer repr)
     for dname in DISCR_EXPRS:
-        for repr_ in (["i8", "i32"] if dname == "neg_paren" else ["u8", "i16"]):
+        for repr_ in (["i8", "i32"] if dname == "neg_paren" else (["u8"] if dname in ("bytelit", "constmix", "constfirst") else ["u8", "i16"])):
             for sh in (("none", "none", "none", "none", "none"), ("gen", "none", "gen", "none"), ("none", "gen", "none")):
                 if len(sh) > len(DISCR_EXPRS[dname]):
                     sh = sh[:len(DISCR_EXPRS[dname])]
@@ -1289,17 +1297,18 @@ def c20(tier, seed):
     out = []
     form = 0
     trait_sets = [["PartialEq(unsafe)"], ["Hash(unsafe)"], ["Clone", "Copy"], ["PartialEq(unsafe)", "Eq", "Hash(unsafe)", "Clone", "Copy"],
-                  ["Hash(unsafe)", "PartialEq(unsafe)"]]
+                  ["Clone"], ["Hash(unsafe)", "PartialEq(unsafe)"]]
     for urow in UNIONS:
         fields, size, generics = urow[:3]
         urepr = urow[3] if len(urow) > 3 else None
-        for ts in trait_sets if tier != "quick" else trait_sets[:4]:
+        for ts in trait_sets if tier != "quick" else trait_sets[:5]:
             form += 1
             fs = [Field(n, t) for n, t in fields]
             focus = {t.split("(")[0] for t in ts} & {"PartialEq", "Hash", "Clone"}
             inst = {"T0": "u32"} if len(generics) == 1 else {"T0": "u8", "T1": "u16"}
             P = Program(c.pid(), "union", "U", [Variant(None, "named", fs)], ts, generics=generics, inst=inst, focus=focus, repr_=urepr,
-                        note="union %s size=%d repr=%s traits=%s" % (fields, size, urepr, ts), union={"size": size})
+                        note="union %s size=%d repr=%s traits=%s" % (fields, size, urepr, ts), union={"size": size},
+                        extra_derive=(["Copy"] if ts == ["Clone"] else []))       # Clone educed alone: Copy comes from std's derive
             P.tags["mk"] = ("pub fn mk<Z9: Src>(s: &mut Z9) -> TI { let mut b = [0u8; %d]; let mut i = 0; while i < %d { b[i] = s.u8(); i += 1; } "
                             "unsafe { core::mem::transmute_copy::<[u8; %d], TI>(&b) } }" % (size, size, size))
             P.tags["no_verus"] = "unions / raw byte views are outside Verus' subset"
@@ -1399,6 +1408,17 @@ def c14(tier, seed):
         fs = [Field("a", "T0", attrs=[neg % "Debug"], debug={}), Field("b", "T0", attrs=["Debug(ignore)"], debug={"ignore": True}), Field("c", "T0", debug={})]
         add(Program(c.pid(), "struct", "S", [Variant(None, "named", fs)], ["Debug"], generics=["T0"], inst={"T0": "u8"}, focus={"Debug"},
                     note="C14 Debug not-ignored spelling `%s`" % neg, debug={"name": "default", "named_field": None}))
+        # the same on positionally shown fields: tuple struct, named struct shown as a tuple, tuple variant
+        fs = [Field(None, "T0", attrs=[neg % "Debug"], debug={}), Field(None, "T0", attrs=["Debug(ignore)"], debug={"ignore": True}), Field(None, "T0", debug={})]
+        add(Program(c.pid(), "struct", "S", [Variant(None, "tuple", fs)], ["Debug"], generics=["T0"], inst={"T0": "u8"}, focus={"Debug"},
+                    note="C14 Debug not-ignored spelling `%s` on a tuple struct" % neg, debug={"name": "default", "named_field": None}))
+        fs = [Field("a", "T0", attrs=[neg % "Debug"], debug={}), Field("b", "T0", debug={})]
+        add(Program(c.pid(), "struct", "S", [Variant(None, "named", fs)], ["Debug(named_field = false)"], generics=["T0"], inst={"T0": "u8"}, focus={"Debug"},
+                    note="C14 Debug not-ignored spelling `%s` on a named struct shown as a tuple" % neg, debug={"name": "default", "named_field": False}))
+        vs = [Variant("V0", "tuple", [Field(None, "T0", debug={}), Field(None, "T0", attrs=[neg % "Debug"], debug={})], debug={"name": True, "named_field": None}),
+              Variant("V1", "unit", [], debug={"name": True, "named_field": None})]
+        add(Program(c.pid(), "enum", "E", vs, ["Debug"], generics=["T0"], inst={"T0": "u8"}, focus={"Debug"},
+                    note="C14 Debug not-ignored spelling `%s` on a tuple variant" % neg, debug={"name": "default", "named_field": None}))
     for j, nn in enumerate(["Default(new = false)", "Default(new(false))"]):
         fs = [Field("a", "u8", attrs=["Default = 4"], default={"src": "4", "expected": "4u8", "verus": True})]
         P = add(Program(c.pid(), "struct", "S", [Variant(None, "named", fs)], [nn], focus={"Default"}, note="C14 `%s`" % nn, default={"new": False}))
@@ -2075,6 +2095,52 @@ def uniform_twins(programs, every=2):
         Q.inst = {}
         Q.note = "uniform u8 twin of " + P.pid + ": " + P.note
         out.append(Q)
+    return out
+
+
+def adv_twins(programs, every=3):
+    """twins whose plain fields are DECLARED with the adversarial type crate::m::Adv (inherent methods named
+    like the trait methods, doing the wrong thing).  Instantiating a type parameter with Adv is not enough:
+    generic code resolves method calls against the bound, so only a concrete field type exposes a
+    generated `x.clone()` / `a.eq(b)` / `x.hash(h)` that should have been a fully qualified trait call."""
+    out = []
+    k = 0
+    for P in programs:
+        if P.canary_of is not None or P.kind == "union" or P.tags.get("no_verus") or P.pid.endswith("u"):
+            continue
+        if not any(v.fields for v in P.variants):
+            continue
+        k += 1
+        if k % every:
+            continue
+        Q = copy.deepcopy(P)
+        Q.tags.pop("frozen_src", None)
+        Q.pid = P.pid + "a"
+        changed = False
+        for v in Q.variants:
+            for f in v.fields:
+                meth = any(isinstance(d, dict) and d.get("method") for d in f.sem.values())
+                if not meth and not f.ty.startswith("&") and "PhantomData" not in f.ty:
+                    f.ty = "crate::m::Adv"; changed = True
+        if not changed:
+            continue
+        Q.generics = []
+        Q.inst = {}
+        Q.tags["no_verus"] = "adversarial concrete field type: decided by Kani (vstd has no specs for it)"
+        Q.note = "Adv-typed twin of " + P.pid + ": " + P.note
+        out.append(Q)
+    return out
+
+
+def own_spellings(prop, focus_trait):
+    """the C14 spelling members of one trait, counted under that trait's own property as well"""
+    out = []
+    for P in c14("quick", 0):
+        if focus_trait in P.focus or (focus_trait == "Ord" and "PartialOrd" in P.focus):
+            if "not-ignored" in P.note or "rank literal" in P.note or "rank forms" in P.note:
+                P.pid = "ps" + P.pid[1:]
+                P.tags["prop"] = prop
+                out.append(P)
     return out
 
 
